@@ -345,6 +345,8 @@ def model_st(draw, cplx=None, max_modes=6, max_sites=4, beta_lo=0.1, beta_hi=200
         m["repeat"] = True
     if draw(st.sampled_from([False, False, False, True])):
         m["early"] = True
+    if draw(st.sampled_from([False, False, False, True])):
+        m["phased"] = True
     return m
 
 
@@ -487,6 +489,8 @@ def special_model_st(draw, cplx=None, max_modes=4, beta_lo=0.1, beta_hi=200.0, s
         m["repeat"] = True
     if draw(st.sampled_from([False, False, False, True])):
         m["early"] = True
+    if draw(st.sampled_from([False, False, False, True])):
+        m["phased"] = True
     return m
 
 
